@@ -24,6 +24,8 @@ VARIABLE s
 OD == Opt(D)
 ED == Either(D, D)
 VD == Variant(<<D, D, D>>)
+VD4 == Variant(<<D, D, D, D>>)
+DynTypes == {<<>>, <<1>>, <<2>>, <<1, 2>>, <<2, 1>>}
 T1(Rg) == [1..N -> Rg]
 T2(Rg) == [1..N -> [1..N -> Rg]]
 SeqsUpTo(S, n) == UNION {[1..m -> S] : m \in 0..n}
@@ -38,6 +40,12 @@ Cases ==
                              \cup [kind : {"eit"}, xs : SeqsUpTo(ED, MaxLen)]
     [] Group = "once"     -> [o : OD, e : ED, v : VD, f : T1(D), p : T1(BOOLEAN)]
     [] Group = "order"    -> [a : VD, b : VD, c : VD, x : OD, y : OD, z : OD]
+    \* extension round
+    [] Group = "refs"     -> [o : Opt({Ref(i) : i \in 1..N}), p : 0..N, store : T1(D), x : D, y : D]
+    [] Group = "ext"      -> [o : OD, oo : Opt(OD), e : ED, f : T1(D), b : BOOLEAN, x : D, y : D]
+    [] Group = "seqerr"   -> [xs : SeqsUpTo(D, MaxLen), f : T1(Either(D, {0}))]
+    [] Group = "variant4" -> [v : VD4, w : VD4, i : 1..4, y : D, types : DynTypes, castable : SUBSET {1, 2}]
+    [] Group = "do"       -> [o : OD, e : ED, l1 : T1(OD), l2 : T2(OD), m1 : T1(ED)]
 
 Init == s \in Cases
 Next == UNCHANGED s
@@ -260,6 +268,107 @@ LawVarCompare == Is("order") =>
   LET eq == [t \in 1..3 |-> [i \in 1..N |-> [j \in 1..N |-> i = j]]] IN
   /\ VarCompare(s.a, s.b, eq).res = VarEq(s.a, s.b).res
   /\ Len(VarCompare(s.a, s.b, eq).calls) = IF s.a.t = s.b.t THEN 1 ELSE 0
+
+
+(* ================================================================== extension round *)
+\* chain = iterated bind, with the calls of the binds in order
+LawOptChain == Is("optmonad") =>
+  LET b1 == OptBind(s.o, s.k)
+      b2 == OptBind(b1.res, s.h)
+      c == OptChain(s.o, <<s.k, s.h>>)
+  IN /\ c.res = b2.res
+     /\ c.calls = ReIndex(b1.calls, 1) \o ReIndex(b2.calls, 2)
+     /\ OptChain(s.o, <<>>) = Pure(s.o)
+     /\ OptChain(s.o, <<s.k>>).res = b1.res
+     /\ OptDo(s.o, <<s.k>>).res = b1.res
+     /\ \A x \in D : OptChain(MonadReturnOpt(x).res, <<s.k>>).res = Ap1(s.k, x)
+     \* a do-block whose second lambda ignores the first value is a chain
+     /\ OptDo(s.o, <<s.k, [i \in 1..N |-> s.h]>>).res = c.res
+LawEitChain == Is("eitmonad") =>
+  LET b1 == EitBind(s.e, s.k)
+      b2 == EitBind(b1.res, s.h)
+      c == EitChain(s.e, <<s.k, s.h>>)
+  IN /\ c.res = b2.res
+     /\ c.calls = ReIndex(b1.calls, 1) \o ReIndex(b2.calls, 2)
+     /\ EitChain(s.e, <<>>) = Pure(s.e)
+     /\ EitDo(s.e, <<s.k>>).res = b1.res
+     /\ \A x \in D : EitChain(MonadReturnEit(x).res, <<s.k>>).res = Ap1(s.k, x)
+     /\ EitDo(s.e, <<s.k, [i \in 1..N |-> s.h]>>).res = c.res
+
+\* do-notation = nested binds in which the later lambdas see the earlier values (N = 2 in the cfg)
+LawDo == Is("do") =>
+  LET d == OptDo(s.o, <<s.l1, s.l2>>)
+      inner(v1) == OptBind(Ap1(s.l1, v1), s.l2[v1 + 1])
+  IN /\ d.res = OptBind(s.o, [i \in 1..N |-> inner(i - 1).res]).res
+     /\ (IsSome(s.o) /\ IsSome(Ap1(s.l1, s.o.v)) =>
+           d.calls = <<Call("f", 1, <<s.o.v>>), Call("f", 2, <<s.o.v, Ap1(s.l1, s.o.v).v>>)>>)
+     /\ (IsSome(s.o) /\ ~IsSome(Ap1(s.l1, s.o.v)) => d.calls = <<Call("f", 1, <<s.o.v>>)>>)
+     /\ (~IsSome(s.o) => d = Pure(None))
+     /\ EitDo(s.e, <<s.m1>>) = R(EitBind(s.e, s.m1).res, ReIndex(EitBind(s.e, s.m1).calls, 1))
+
+\* pointers and references
+LawPointerRoundTrip == Is("refs") =>
+  /\ OptToPointer(OptFromPointer(s.p).res).res = s.p
+  /\ OptFromPointer(OptToPointer(s.o).res).res = s.o
+  /\ (OptFromPointer(s.p).res = None <=> s.p = 0)
+LawCopyValue == Is("refs") =>
+  /\ OptCopyValue(s.store, s.o).res = (IF IsSome(s.o) THEN Some(s.store[s.o.v.ref]) ELSE None)
+  /\ (s.p # 0 => OptCopyValue(s.store, OptDeref(Some(s.p)).res).res = Some(s.store[s.p]))
+  /\ OptDeref(None).res = None
+  \* writing through a reference is seen by every later copy_value and changes nothing else
+  /\ LET st2 == OptRefWrite(s.store, s.o, s.y).res IN
+       /\ OptCopyValue(st2, s.o).res = (IF IsSome(s.o) THEN Some(s.y) ELSE None)
+       /\ \A i \in 1..N : (~IsSome(s.o) \/ i # s.o.v.ref) => st2[i] = s.store[i]
+LawAssign == Is("ext") =>
+  /\ OptAssign(s.o, s.x, s.y).res = [ret |-> s.x, opt |-> Some(s.y)]
+  /\ OptValueCopyWrite(s.o, s.y).res[1] = s.o
+  /\ OptMake(s.x).res = Some(s.x) /\ OptNothing.res = None
+  /\ MonadReturnOpt(s.x).res = OptMake(s.x).res /\ MonadReturnEit(s.x).res = EitMakeSuccess(s.x).res
+LawToException == Is("ext") =>
+  /\ OptToException(s.o, s.y) = (IF IsSome(s.o) THEN Pure(Ret(s.o.v)) ELSE R(Thrown(s.y), <<Call("mk", 0, <<>>)>>))
+  /\ OptToException(s.o, s.y).res = OptMaybe(s.o, Thrown(s.y), [i \in 1..N |-> Ret(i - 1)]).res
+  /\ EitToException(s.e, s.f).res = (IF IsSucc(s.e) THEN Ret(s.e.v) ELSE Thrown(Ap1(s.f, s.e.v)))
+  /\ Len(EitToException(s.e, s.f).calls) = (IF IsFail(s.e) THEN 1 ELSE 0)
+\* N / "J x": distinct optionals print differently, nesting composes
+LawOutput == Is("ext") =>
+  /\ \A o2 \in OD : (ShowOpt(o2) = ShowOpt(s.o)) <=> (o2 = s.o)
+  /\ (IsSome(s.o) => OptOutput(s.o).res = <<74, 32, 48 + s.o.v>>) /\ OptOutput(None).res = <<78>>
+  /\ (IsSome(s.oo) => OptOptOutput(s.oo).res = <<74, 32>> \o OptOutput(s.oo.v).res)
+  /\ EitOutput(s.e).res = <<48 + s.e.v>>
+LawConstruct == Is("ext") =>
+  /\ EitConstruct(s.b, s.x, s.y) = (IF s.b THEN R(Succ(s.x), <<Call("s", 0, <<>>)>>) ELSE R(Fail(s.y), <<Call("f", 0, <<>>)>>))
+  /\ EitFailureOpt(EitErrorFromOptional(s.o).res).res = s.o
+  /\ (IsSucc(EitErrorFromOptional(s.o).res) <=> ~IsSome(s.o))
+  /\ EitSuccessOpt(EitMakeSuccess(s.x).res).res = Some(s.x)
+  /\ EitFailureOpt(EitMakeFailure(s.x).res).res = Some(s.x)
+  /\ EitMakeSuccess(s.x).res = EitConstruct(TRUE, s.x, s.y).res
+  /\ EitMakeFailure(s.y).res = EitConstruct(FALSE, s.x, s.y).res
+\* sequence_error = sequence of the mapped container without the result container; stops at the
+\* first failure
+LawSequenceError == Is("seqerr") =>
+  LET r == EitSequenceError(s.xs, s.f)
+      mapped == [i \in DOMAIN s.xs |-> Ap1(s.f, s.xs[i])]
+      sq == EitSequence(mapped).res
+  IN /\ (IsFail(sq) => r.res = sq) /\ (IsSucc(sq) => r.res = Succ(0))
+     /\ \A i \in DOMAIN s.xs :
+          (IsFail(mapped[i]) /\ \A j \in 1..(i - 1) : IsSucc(mapped[j])) => Len(r.calls) = i
+     /\ ((\A i \in DOMAIN s.xs : IsSucc(mapped[i])) => Len(r.calls) = Len(s.xs))
+     /\ \A j \in DOMAIN r.calls : r.calls[j] = Call("f", 0, <<s.xs[j]>>)
+\* four alternatives: assignment, access, dynamic casts
+LawVariantAssign == Is("variant4") =>
+  /\ VarAssign(s.v, s.w).res = [dst |-> s.w, src_t |-> s.w.t]
+  /\ VarHoldsType(s.w.t, VarAssign(s.v, s.w).res.dst).res
+  /\ Cardinality({i \in 1..4 : VarHoldsType(i, s.v).res}) = 1
+  /\ (IsSome(VarToOptional(s.i, s.v).res) <=> s.v.t = s.i)
+  /\ VarRefWrite(s.i, s.v, s.y).res = (IF s.v.t = s.i THEN Var(s.i, s.y) ELSE s.v)
+  /\ VarToOptional(s.i, VarRefWrite(s.i, s.v, s.y).res).res = (IF s.v.t = s.i THEN Some(s.y) ELSE None)
+  /\ VarMatch(s.v, <<Id, Id, Id, Id>>).calls = <<Call("f", s.v.t, <<s.v.v>>)>>
+  /\ VarOutput(s.v).res = <<48 + s.v.v>>
+LawDynamicCast == Is("variant4") =>
+  LET r == VarDynamicCast(s.types, s.castable).res IN
+  /\ (r = None <=> \A i \in DOMAIN s.types : s.types[i] \notin s.castable)
+  /\ (IsSome(r) => /\ s.types[r.v.t] \in s.castable
+                   /\ \A j \in 1..(r.v.t - 1) : s.types[j] \notin s.castable)
 
 TypeOK == s \in Cases
 =============================================================================
